@@ -27,7 +27,9 @@ def main():
     if "--checks" in sys.argv:
         checks = sys.argv[sys.argv.index("--checks") + 1].split(",")
     skip_suite = "--skip-suite" in sys.argv
-    src = Path(f"/tmp/seed-{pid}/_seed/{variant}")
+    root = os.environ.get("SEED_ROOT", "/tmp/seed-")
+    suffix = os.environ.get("SEED_SUFFIX", "")
+    src = Path(f"{root}{pid}/_seed/{variant}")
     if not (src / "patch.diff").exists():
         print("no patch at", src)
         return 2
@@ -71,7 +73,7 @@ def main():
             print(c, "rc", rr.returncode, keys[:4])
         meta["checks_run"] = verdicts
         meta["caught_by"] = [c for c, v in verdicts.items() if v["rc"] == 1]
-        dst = VERIF / "seeded" / f"{pid}-{variant}"
+        dst = VERIF / "seeded" / f"{pid}-{suffix}{variant}"
         dst.mkdir(parents=True, exist_ok=True)
         for f in ("patch.diff", "demo.py", "notes.md"):
             if (src / f).exists():
